@@ -137,6 +137,12 @@ type Options struct {
 	// the default rendition is the first rootfile whose media type is
 	// application/oebps-package+xml, not the first rootfile.
 	ExtraRootfileFirst bool `json:"extra_rootfile_first,omitempty"`
+	// AltPackages lists the package documents of further renditions (container-root
+	// relative paths; the files themselves are Decoys). They are written as rootfile
+	// elements with the package media type *after* the book's own rootfile: "the first
+	// rootfile element ... represents the Default Rendition", which a reading system that
+	// does not select renditions presents (EPUB33 4.2.6.3.1; Multiple-Rendition Publications 1.1 §2).
+	AltPackages []string `json:"alt_packages,omitempty"`
 }
 
 // Book is the whole publication.
@@ -512,6 +518,9 @@ func (b Book) containerXML() []byte {
 	fmt.Fprintf(&sb, `<rootfile full-path="%s" media-type="%s"/>`, esc(b.OPFPath), mtOPF)
 	if b.Opt.ExtraRootfile && !b.Opt.ExtraRootfileFirst {
 		sb.WriteString(extra)
+	}
+	for _, alt := range b.Opt.AltPackages {
+		fmt.Fprintf(&sb, `<rootfile full-path="%s" media-type="%s"/>`, esc(alt), mtOPF)
 	}
 	sb.WriteString(`</rootfiles></container>` + "\n")
 	return []byte(sb.String())
